@@ -100,6 +100,22 @@ def Mutex.unlock (m : Mutex) (a : Aid) : Except Err (Mutex × Option (Aid × Res
 def Mutex.lock (m : Mutex) (a : Aid) (r : Res) : Mutex × Option Res :=
   (m.lockAsync a).1.waitFor a r
 
+/-! ### variant for the PROPOSED fix of finding `mutex-relock-by-owner-returns` (props/C14/fix_series/01-mutex-relock.patch)
+
+NOT the current code and used by no driver: `MutexAcquisitionImpl::wait_for` testing `granted_` instead of
+`mutex_->get_owner() == issuer_`.  `granted` = `is_granted()` of the acquisition being waited on (for the one-simcall
+`lock`: what `lock_async` just returned).  The two variants differ only when the owner of a NON-recursive mutex locks it
+again: the acquisition is queued, not granted — the current code returns at once, the fixed code blocks (as under the
+model checker, whose MUTEX_WAIT is enabled iff `is_granted()`).  When the fix is applied to /repo, `Mutex.waitFor` /
+`Mutex.lock` must become these (see props/C14/NOTES.md, "after the fix"). -/
+
+def Mutex.waitForFixed (m : Mutex) (a : Aid) (r : Res) (granted : Bool) : Mutex × Option Res :=
+  if granted then (m, some r)
+  else ({ m with queue := markLast a r m.queue }, none)
+
+def Mutex.lockFixed (m : Mutex) (a : Aid) (r : Res) : Mutex × Option Res :=
+  (m.lockAsync a).1.waitForFixed a r (m.lockAsync a).2
+
 /-! ## Semaphore  (SemaphoreImpl.cpp) -/
 
 structure SAcq where
@@ -311,6 +327,15 @@ def barWaitMCStep (w : World) (a : Aid) (b : Nat) : World × Outs :=
   let r := (w.bars b).waitFor a (w.hgrant a)
   ({ w with bars := upd w.bars b r.1 }, if r.2 then [(a, .flag (w.hlast a))] else [])
 
+/-- Barrier::wait in ONE simcall (path of normal runs), given the result `r` of acquire_async = (barrier, granted_,
+released acquisitions): then `wait_for`, and `observer.set_result(p->get_barrier()->was_last())` evaluated right after.
+(`r` is a parameter for the same reason as in `barAsyncStepR`: facts about this step are proved for every `r`, without
+unfolding `acquireAsync`, whose 2^32 literals do not reduce symbolically.) -/
+def barWaitStepR (w : World) (a : Aid) (b : Nat) (r : Bar × Bool × List BAcq) : World × Outs :=
+  ({ w with bars := upd w.bars b (r.1.waitFor a r.2.1).1, hgrant := grantUnwaitedB w.hgrant r.2.2 },
+   ((r.2.2.filter (·.waited)).map (fun q => (q.issuer, Res.flag false))) ++
+     (if (r.1.waitFor a r.2.1).2 then [(a, .flag (r.1.waitFor a r.2.1).1.wasLast)] else []))
+
 /-- One kernel-level event.  Outputs: the simcalls answered by this event, in the order the kernel answers them. -/
 def World.step (w : World) : Ev → Except Err (World × Outs)
   | .lock a m =>
@@ -377,13 +402,7 @@ def World.step (w : World) : Ev → Except Err (World × Outs)
     let (w1, o) := condBroadcast w c
     .ok (w1, o ++ [(a, .unit)])
   | .condTimeout a c => condTimeoutStep w a c
-  | .barWait a b =>
-    let (b1, g, released) := (w.bars b).acquireAsync a
-    let (b2, fin) := b1.waitFor a g
-    -- `observer.set_result(p->get_barrier()->was_last())` is evaluated right after acquire_async + wait_for
-    .ok ({ w with bars := upd w.bars b b2, hgrant := grantUnwaitedB w.hgrant released },
-         ((released.filter (·.waited)).map (fun q => (q.issuer, Res.flag false))) ++
-           (if fin then [(a, .flag b2.wasLast)] else []))
+  | .barWait a b => .ok (barWaitStepR w a b ((w.bars b).acquireAsync a))
   | .barAsync a b => .ok (barAsyncStep w a b)
   | .barWaitMC a b => .ok (barWaitMCStep w a b)
 
